@@ -22,6 +22,7 @@ CONSTANTS
     FnTruthyWhenEmpty,    \* F5  emptied function node survives a delete
     StreamLeaksMerge,     \* F6  StreamNode hands implicit_delete=False to its stages
     ClearDropsDelTagged,  \* F12 !clear of a container tagged !del earlier removes the key
+    NoCycleCheck,         \* F8  xref.py followed reference chains without any cycle check
     DefaultSafeOverwrite, \* F7  _replace_* overwrite _default_safe instead of and-ing
     \* One named design mutation ("none" in every real cfg).  Mutation cfgs set
     \* it and expect TLC to refute the property: the vacuity guard.
